@@ -18,6 +18,14 @@ class PathEnd(Exception):
     """analysis cut: infeasible path, loop back edge, assume(false). Bypasses python finally."""
 
 
+class Suspend(Exception):
+    """the generator under contract is suspended at a yield (not a python-level exit: finally blocks do not run)"""
+
+    def __init__(self, value, node=None):
+        self.value = value
+        self.node = node
+
+
 class Signal(Exception):
     """python-level control flow inside the interpreted program"""
 
